@@ -89,6 +89,9 @@ func (c *ScriptConn) Close() error {
 	c.closed = true
 	c.mu.Unlock()
 	c.Rec.AddAux(Ev{"e": "Closed"})
+	if c.Rec.Sink != nil {
+		c.Rec.Sink.Add(Ev{"e": "ConnClosed", "c": c.Rec.ID})
+	}
 	return nil
 }
 
